@@ -27,14 +27,65 @@ def main(argv=None) -> int:
             rec = json.load(f)
         print(f"replaying finding rule={rec.get('rule')} construct={rec.get('construct')} key={rec.get('key')}: "
               f"re-running the property's rules on the current tree")
-    rc = run_property(a.prop, a.tier, mod.check, mod.EXPLANATION, mod.ASSUMPTIONS, replay=a.replay,
+    checker = mod.check
+    if a.tier == "thorough" and hasattr(mod, "check_thorough"):
+        def checker(s, mod=mod):
+            mod.check(s)
+            mod.check_thorough(s)
+    rc = run_property(a.prop, a.tier, checker, mod.EXPLANATION, mod.ASSUMPTIONS, replay=a.replay,
                       write_evidence=not a.no_evidence)
-    if rc == 0 and a.tier == "thorough" and hasattr(mod, "selftest"):
-        pass
+    if a.tier == "thorough" and rc in (0, 1) and not a.no_evidence:
+        self_validation(a.prop)
     return rc
 
 
+def self_validation(prop: str) -> None:
+    """Thorough tier: run the mutant / variant catalogue for this property against the CURRENT tree and record the tally in the
+    evidence. A missed mutant or an alarming variant is a weakness of the checker, not a violation of the property: it is printed
+    and recorded, and does not change the exit code."""
+    here = os.path.dirname(os.path.dirname(os.path.abspath(__file__)))
+    sys.path.insert(0, here)
+    from multiprocessing import Pool
+
+    from selftest import generic, run as st_run
+    from selftest.catalogue import ENTRIES
+
+    entries = [e for e in list(ENTRIES) + generic.entries() if prop in e["props"]]
+    st_run.ONLY.clear()
+    st_run.ONLY.add(prop)
+    with Pool(min(16, max(1, len(entries)))) as pool:
+        results = pool.map(st_run.run_entry, entries, chunksize=1)
+    tally = {}
+    for r in results:
+        tally[r["status"]] = tally.get(r["status"], 0) + 1
+    bad = [r for r in results if r["status"] in ("MISSED", "FALSE-ALARM", "error")]
+    print(f"[{prop}/thorough] self-validation on the current tree: {tally}")
+    for r in bad:
+        print(f"  SELFTEST {r['status']}: {r['id']} {r.get('hits', [])[:3]} {r.get('errors', [])[:1]}")
+    ev_path = os.path.join(here, "evidence", f"{prop}.json")
+    try:
+        with open(ev_path) as f:
+            ev = json.load(f)
+        ev["coverage"]["self_validation"] = {
+            "tally": tally,
+            "mutants": [{"id": r["id"], "status": r["status"], "hits": r.get("hits", [])[:3]} for r in results if r.get("kind") == "mutant"],
+            "variants_silent": sum(1 for r in results if r.get("kind") == "variant" and r["status"] == "silent"),
+            "not_ok": [{"id": r["id"], "status": r["status"]} for r in bad],
+            "note": "mutants/variants are textual edits of the current sources analysed in memory; stale = anchor text no longer present",
+        }
+        with open(ev_path, "w") as f:
+            json.dump(ev, f, indent=1, default=str)
+    except (OSError, ValueError):
+        pass
+
+
 if __name__ == "__main__":
+    import signal
+
+    try:
+        signal.signal(signal.SIGPIPE, signal.SIG_DFL)
+    except (AttributeError, ValueError):
+        pass
     try:
         rc = main()
     except SystemExit:
